@@ -45,8 +45,8 @@ OConnect ==
   /\ td' = [td EXCEPT ![K] = {}] /\ bfs' = [bfs EXCEPT ![K] = {}]
   /\ NoSend /\ UNCHANGED <<mq, bq, stored, panic>>
 
-OMgrOnly ==      \* ConnectDup, Rotate, TrackerPeers, Settle: manager state changes only
-  /\ Ev.e \in {"ConnectDup", "Rotate", "TrackerPeers", "Settle"}
+OMgrOnly ==      \* ConnectDup, ConnectRefused, Rotate, TrackerPeers, Settle: manager state changes only
+  /\ Ev.e \in {"ConnectDup", "ConnectRefused", "Rotate", "TrackerPeers", "Settle"}
   /\ MgrLog
   /\ NoSend /\ UNCHANGED <<mq, h, bq, stored, wire, panic, due, ann, td, bfs>>
 
